@@ -38,6 +38,76 @@ Theorem c13_never_reused : forall c reqs rnd, NoDup (fst (login_history c reqs r
 Proof. exact login_history_nodup. Qed.
 Print Assumptions c13_never_reused.
 
+(** ... and over LONG MIXED histories of one process. The generator is process-wide: besides the login (nonce, state,
+    verifier) it serves the self-initiated logout (state) and, for a provider that issues neither sid nor session_state,
+    the login callback (the generated session id, then the session's data key). A history is any list of operations -
+    logins with or without PAR under any behaviour of the PAR endpoint, callbacks accepted or refused with a provider
+    session id or a generated one, logouts, logout callbacks, front-channel and local logouts - each under its own
+    configuration, in any order. All values drawn are pairwise distinct, whatever their kind: a nonce is never an earlier
+    state, a generated session id never an earlier nonce, a logout state never a login state. *)
+Theorem c13_history_never_reuses : forall ops rnd, NoDup (map snd (fst (hist_run ops rnd))).
+Proof. exact hist_run_nodup. Qed.
+Print Assumptions c13_history_never_reuses.
+
+Theorem c13_history_positions_distinct : forall ops rnd i j k1 a1 k2 a2,
+  nth_error (fst (hist_run ops rnd)) i = Some (k1, a1) -> nth_error (fst (hist_run ops rnd)) j = Some (k2, a2) ->
+  i <> j -> a1 <> a2.
+Proof. exact hist_run_positions_distinct. Qed.
+Print Assumptions c13_history_positions_distinct.
+
+(** every operation takes its values between the counter before and after it, and the counter never goes back: no
+    operation can hand out a value an earlier operation has handed out *)
+Theorem c13_history_step_takes_new_values : forall c op rnd,
+  let o := hist_step c op rnd in
+  rnd <= hs_rnd o /\ Forall (fun x => rnd <= snd x /\ snd x < hs_rnd o) (hs_draws o) /\ NoDup (map snd (hs_draws o)).
+Proof. exact hist_step_bounds. Qed.
+Print Assumptions c13_history_step_takes_new_values.
+
+(** the login of a history is the login of (1)-(4): its three draws are the nonce and state of the authorization request
+    and the verifier behind its challenge *)
+Theorem c13_history_login_is_login : forall c q ref replies rnd i l,
+  matching_ingresses c q = i :: l ->
+  let o := hist_step c (HLogin q ref replies) rnd in
+  In (login_par c q rnd ref replies i) (login_results c q rnd ref replies) /\
+  hs_ok o = lo_ok (login_par c q rnd ref replies i) /\ hs_rnd o = lo_rnd (login_par c q rnd ref replies i) /\
+  hs_draws o = [(DNonce, rnd); (DState, rnd + 1); (DVerifier, rnd + 2)] /\
+  In (PNonce, VRnd rnd) (auth_params c q i rnd) /\ In (PState, VRnd (rnd + 1)) (auth_params c q i rnd) /\
+  In (PCodeChallenge, VS256 (rnd + 2)) (auth_params c q i rnd).
+Proof. exact hist_login_is_login. Qed.
+Print Assumptions c13_history_login_is_login.
+
+(** a session created for a provider without session ids draws the id and the data key as two further new values;
+    operations that draw nothing (logout callback, front-channel and local logout, a login without a matching ingress, a
+    callback refused by a browser-side check) leave the counter where it is *)
+Theorem c13_history_generated_session_id : forall c r tok rnd,
+  let o := hist_step c (HCallback r tok false) rnd in
+  hs_ok o = true -> exists a, hs_draws o = [(DSessionId, a); (DDataKey, a + 1)] /\ rnd <= a /\ hs_rnd o = a + 2.
+Proof. exact hist_callback_generated_sid. Qed.
+Print Assumptions c13_history_generated_session_id.
+
+Theorem c13_history_no_draw_operations : forall c rnd,
+  hist_step c HLogoutCallback rnd = hist_nothing true rnd /\ hist_step c HLogoutFrontChannel rnd = hist_nothing true rnd /\
+  hist_step c HLogoutLocal rnd = hist_nothing true rnd /\
+  (forall q ref replies, matching_ingresses c q = [] -> hist_step c (HLogin q ref replies) rnd = hist_nothing false rnd) /\
+  (forall r tok psid e, callback_checks c r = inl e -> hist_step c (HCallback r tok psid) rnd = hist_nothing false rnd).
+Proof. exact hist_no_draw_ops. Qed.
+Print Assumptions c13_history_no_draw_operations.
+
+(* non-vacuity: the history of the missed change - one logout, a complete login against a provider without session ids,
+   another login - draws 0 | 1 2 3 | 4 5 | 6 7 8: the second login's nonce (6) is none of the earlier values *)
+Example c13_history_nonvacuous :
+  let c := mk_acfg 1 [{| i_scheme := [104;116;116;112]; i_host := [119]; i_path := [] |}] [99] [105] [] [] [] [] [111] []
+                   false true false true true in
+  let q := {| r_host := [119]; r_xfh := []; r_path := [47;111]; r_level := []; r_locale := []; r_prompt := [] |} in
+  let i := {| i_scheme := [104;116;116;112]; i_host := [119]; i_path := [] |} in
+  let cb := {| cb_state := VRnd 2; cb_code := VStr [120]; cb_iss := VStr []; cb_error := VStr [];
+               cb_cookie := CkEnc 1 (login_cookie_fields c q i 1 (VStr [])) |} in
+  hist_run [(c, HLogout q (VStr [])); (c, HLogin q (VStr []) []); (c, HCallback cb true false); (c, HLogoutCallback);
+            (c, HLogin q (VStr []) [])] 0
+  = ([(DLogoutState, 0); (DNonce, 1); (DState, 2); (DVerifier, 3); (DSessionId, 4); (DDataKey, 5);
+      (DNonce, 6); (DState, 7); (DVerifier, 8)], 9).
+Proof. vm_compute. reflexivity. Qed.
+
 (** (3) the login cookie seals exactly this attempt's state, nonce, verifier, redirect URI, acr and return target. *)
 Theorem c13_cookie_binds : forall c q i rnd ref,
   let f := login_cookie_fields c q i rnd ref in
